@@ -87,8 +87,10 @@ func validatePermTree(root *ptree.PermNode, isAccount bool) (bool, error) {
 
 		checkResult := false
 		if nameCheck == 0 {
-			// current node is AK, signature should be validated before
-			checkResult = true
+			// current node is AK, signature should be validated before.
+			// only the last element of a signer uri has its signature verified, an AK name placed in
+			// the middle of somebody else's uri has signed nothing
+			checkResult = pnode.IsSigner
 		} else if nameCheck == 1 {
 			// current node is Account, so validation using ACLValidator
 			if pnode.ACL == nil {
